@@ -436,11 +436,15 @@ def value_read_before(cx, site, arg_index, call_suffix):
     """The value passed as argument `arg_index` at call `site` was read on every path *before* any call
     to `call_suffix` in the same function. Value expressions carry no memory version, so rules that
     depend on 'the old value' check the position of the defining reads here. None = cannot tell."""
-    fn = site.fn
+    return operand_read_before(cx, site.fn, site.data["term"]["args"][arg_index], call_suffix)
+
+
+def operand_read_before(cx, fn, op, call_suffix, strict=False):
+    """Same, for any MIR operand of `fn` (a call argument, the source of a field write).
+    strict: no defining read is reachable from a call to `call_suffix` at all."""
     a = cx.prog.A(fn)
     g = cx.pg(fn)
     from .an import strip_generics
-    op = site.data["term"]["args"][arg_index]
     pl = op.get("copy") or op.get("move")
     if pl is None or pl["p"]:
         return None
@@ -451,4 +455,7 @@ def value_read_before(cx, site, arg_index, call_suffix):
     reads = defining_reads(a, pl["l"])
     if not reads:
         return None
+    if strict:
+        calls = [bi for bi in range(len(fn.body.blocks)) if is_call(bi)]
+        return all(r[0] != c and not g.block_reaches(c, lambda b, r=r: b == r[0]) for r in reads for c in calls)
     return all(not g.dominated_by_block(r, is_call) for r in reads)
